@@ -196,8 +196,7 @@ Proof.
     exact (GoodIn_env _ _ _ _ B2 (IHe flv (slv + 1) l en1) B1).
   - (* SForNum *) intros n vl e1 e2 e3 b l IH1 IH2 IH3 IHb flv slv reg en. cbn [b_stat fst snd]. split; [|apply EnvOK_refl].
     apply GoodIn_app.
-    + apply GoodIn_tag_if. apply GoodIn_app; [apply IH1|]. apply GoodIn_app; [|apply IH3].
-      destruct (has_func e3); [apply GoodIn_tag_if|]; apply IH2.
+    + apply GoodIn_tag_if. apply GoodIn_app; [apply IH1|]. apply GoodIn_app; [apply IH2|apply IH3].
     + exact (GoodIn_scope en flv (slv + 1) l false [(n, vl)] [false] _ (proj1 (IHb flv (slv + 1) l _))).
   - (* SForIn *) intros ns ls es b l IHe IHb flv slv reg en. cbn [b_stat fst snd]. split; [|apply EnvOK_refl].
     apply GoodIn_app; [apply GoodIn_tag_if; apply exps_good; exact IHe|].
